@@ -577,6 +577,120 @@ func allocatorPredicates(c *Ctx, r *Report, rule string) {
 		})
 	}
 	if n == 0 {
+		// the predicates may have been written out where they are used: judge the tests that guard the allocator's membership
+		// proposals in place — the replica count against R (strict, on the proposing side), and the driver test on the path
+		// conditions of the proposal (every way in has a comparison of a fixed element of the replica list with a node id, true)
+		isLenOfNodes := func(v ssa.Value) bool {
+			cl, ok := strip(v).(*ssa.Call)
+			return ok && callID(&cl.Call).is("builtin", "", "len") && strings.Contains(strings.ToLower(cl.Call.Args[0].Type().String()), "uint64")
+		}
+		isReplFactor := func(v ssa.Value) bool {
+			for _, o := range origins(v, originOpt{}) {
+				if cl, ok := o.(*ssa.Call); ok && callID(&cl.Call).Name == "GetReplicationFactor" {
+					return true
+				}
+			}
+			return false
+		}
+		for _, f := range prodFuncs(c, "storage") {
+			if f.Parent() != nil || recvTypeName(f) != "Allocator" {
+				continue
+			}
+			k := 0
+			eachInstr(f, func(i ssa.Instruction) {
+				cl, ok := i.(*ssa.Call)
+				if !ok || cl.Call.StaticCallee() == nil || recvTypeName(cl.Call.StaticCallee()) != "partition" {
+					return
+				}
+				g := cl.Call.StaticCallee()
+				proposes := false
+				for h := range c.reachableFrom([]*ssa.Function{g}, false, true) {
+					if recvTypeName(h) == "DatasetManager" {
+						eachInstr(h, func(z ssa.Instruction) {
+							if cc := asCall(z); cc != nil && cc.IsInvoke() && cc.Method.Name() == "Propose" {
+								proposes = true
+							}
+						})
+					}
+				}
+				if !proposes {
+					return
+				}
+				k++
+				for _, ifi := range allIfs(f) {
+					for _, pol := range []bool{true, false} {
+						if !guardedBy(cl.Block(), ifi, pol) {
+							continue
+						}
+						cm, okc := resolveCmp(ifi.Cond, 0)
+						if !okc {
+							continue
+						}
+						op := cm.op
+						shape := false
+						if isLenOfNodes(cm.x.v) && isReplFactor(cm.y.v) {
+							shape = true
+						} else if isLenOfNodes(cm.y.v) && isReplFactor(cm.x.v) {
+							shape, op = true, flipCmp(op)
+						}
+						if !shape {
+							continue
+						}
+						if !pol {
+							op = negOp(op)
+						}
+						n++
+						r.Check(op == token.LSS, rule, fnName(f), fmt.Sprintf("under-replicated-strict#%d", k), c.InstrPos(ifi), fmt.Sprintf("a node is added only to a partition with fewer than R replicas (len %s R on the proposing side)", op))
+					}
+				}
+				e := &condEngine{budget: 6000}
+				e.atomKey = func(v ssa.Value) (string, bool, bool) {
+					bo, isB := v.(*ssa.BinOp)
+					if !isB || (bo.Op != token.EQL && bo.Op != token.NEQ) {
+						return "", false, false
+					}
+					for _, sd := range []ssa.Value{bo.X, bo.Y} {
+						if l, isL := loadOf(sd); isL {
+							if ia, isI := l.(*ssa.IndexAddr); isI {
+								if _, isK := constInt(ia.Index); isK {
+									return "driver:" + bo.Name(), bo.Op == token.NEQ, true
+								}
+							}
+						}
+					}
+					return "", false, false
+				}
+				hdr, _ := naturalLoopOf(cl.Block())
+				var paths []condPath
+				if hdr != nil {
+					paths = e.pathsFrom(f, hdr, cl.Block(), 0)
+				} else {
+					paths = e.pathsTo(f, cl.Block(), 0)
+				}
+				if e.failed || len(paths) == 0 {
+					return
+				}
+				n++
+				bad := false
+				for _, p := range paths {
+					has, allTrue := false, true
+					for key, val := range p.asg {
+						if strings.HasPrefix(key, "driver:") {
+							has = true
+							if !val {
+								allTrue = false
+							}
+						}
+					}
+					if !has || !allTrue {
+						bad = true
+					}
+				}
+				r.Check(!bad, rule, fnName(f), fmt.Sprintf("single-driver-inline#%d", k), c.InstrPos(cl), "membership changes of a partition are proposed by one node only: every way of reaching the proposal has a comparison of a fixed element of a node list with a node id, and it holds")
+			})
+		}
+	}
+	if n == 0 {
 		r.Unk(rule, "storage", "allocator-predicates", "-", "neither the under-replication test nor the guard of the membership proposals was found")
 	}
 }
